@@ -348,7 +348,7 @@ func (z *zkDCS) AcquireLock(path string) bool {
 		z.lockHeld.Delete(fullPath)
 	}
 	self := z.getSelfLockOwner()
-	data, _, err := z.retryGet(fullPath)
+	data, stat, err := z.retryGet(fullPath)
 	if err != nil && !errors.Is(err, zk.ErrNoNode) {
 		z.logger.Error().Err(err).Msgf("failed to get lock info %s", fullPath)
 		return false
@@ -375,6 +375,12 @@ func (z *zkDCS) AcquireLock(path string) bool {
 		return false
 	}
 	if owner == self {
+		// hostname and pid may be those of a previous incarnation of this process whose session
+		// is still alive (quick restart, pid reuse): the lock is ours only if our session owns it
+		if stat != nil && stat.EphemeralOwner != 0 && stat.EphemeralOwner != z.conn.SessionID() {
+			z.logger.Warn().Msgf("lock %s is held by another session of %+v, waiting for it to expire", fullPath, owner)
+			return false
+		}
 		z.lockHeld.Store(fullPath, time.Now())
 		return true
 	}
